@@ -40,12 +40,13 @@ type act struct {
 	Cap   int    `json:"cap"`
 	Sized bool   `json:"sized"`
 	Same  bool   `json:"-"` // store the value object that was stored for this key last time, grown to S
+	VK    int    `json:"-"` // dynamic kind of the value stored (kinds.go)
 }
 
 func (a act) rec() tr.E {
 	switch a.Op {
 	case "set", "setx", "setnx":
-		return tr.E{"op": a.Op, "k": a.K, "v": a.V, "s": a.S}
+		return tr.E{"op": a.Op, "k": a.K, "v": a.V, "s": a.S, "vk": a.VK}
 	case "get", "peek", "exist", "del":
 		return tr.E{"op": a.Op, "k": a.K}
 	case "setcap":
@@ -62,8 +63,10 @@ type skey struct {
 	B string
 }
 
-func mkKey(kind, k int) interface{} {
+func mkKey(kind, k, koff int) interface{} {
 	switch kind {
+	case 5:
+		return mixKey(k, koff)
 	case 1:
 		return fmt.Sprintf("key-%d", k)
 	case 2:
@@ -79,18 +82,20 @@ func mkKey(kind, k int) interface{} {
 // lru is the common surface of both implementations
 type lru interface {
 	do(a act) interface{}
-	obs() tr.E
+	obs() *lazyObs
 }
 
 type sizedLRU struct {
 	c    *cache.LRUCache
 	kind int
+	koff int
 	lmu  sync.Mutex
 	last map[int]*sv // the value object stored last for each key (harness bookkeeping of its own calls)
 }
 
-// val returns the value object to store for a: a fresh one, or the previously stored one grown in place
-func (l *sizedLRU) val(a *act) *sv {
+// val returns the value to store for a: a fresh one of the kind drawn, or the previously stored object
+// grown in place
+func (l *sizedLRU) val(a *act) cache.Value {
 	l.lmu.Lock()
 	defer l.lmu.Unlock()
 	if a.Same {
@@ -99,6 +104,10 @@ func (l *sizedLRU) val(a *act) *sv {
 			a.V = p.id
 			return p
 		}
+	}
+	if a.VK != vkPtr {
+		delete(l.last, a.K)
+		return mkVal(a.VK, a.V, a.S)
 	}
 	p := &sv{a.V, a.S}
 	l.last[a.K] = p
@@ -116,25 +125,37 @@ type lazy struct {
 func (z *lazy) ids() []int {
 	r := make([]int, 0, len(z.vals)+len(z.anys))
 	for _, x := range z.vals {
-		if v, ok := x.(*sv); ok && v != nil {
-			r = append(r, v.id)
-		} else {
-			r = append(r, -1)
-		}
+		r = append(r, idOf(x))
 	}
 	for _, x := range z.anys {
-		if v, ok := x.(int); ok {
-			r = append(r, v)
-		} else {
-			r = append(r, -1)
-		}
+		r = append(r, idOf(x))
 	}
 	return r
+}
+
+// junk: what a caller may write over a list it was given
+var junkVal = &sv{-99, 1 << 20}
+
+// scribble: the caller owns a list a method returned.  Once it has been put into trace form it is
+// overwritten and appended into from the start; nothing the cache reports later may change by that.
+func (z *lazy) scribble() {
+	for i := range z.vals {
+		z.vals[i] = junkVal
+	}
+	for i := range z.anys {
+		z.anys[i] = "junk"
+	}
+	z.vals = append(z.vals[:0], junkVal)
+	z.anys = append(z.anys[:0], "junk", "junk")
 }
 
 func fin(e tr.E) tr.E {
 	if z, ok := e["r"].(*lazy); ok {
 		e["r"] = z.ids()
+		z.scribble()
+	}
+	if o, ok := e["obs"].(*lazyObs); ok {
+		e["obs"] = o.render()
 	}
 	return e
 }
@@ -142,7 +163,7 @@ func fin(e tr.E) tr.E {
 func hit(ok bool, v int) tr.E { return tr.E{"ok": ok, "v": v} }
 
 func (l *sizedLRU) do(a act) interface{} {
-	k := mkKey(l.kind, a.K)
+	k := mkKey(l.kind, a.K, l.koff)
 	switch a.Op {
 	case "set":
 		l.c.Set(k, l.val(&a))
@@ -150,7 +171,7 @@ func (l *sizedLRU) do(a act) interface{} {
 	case "setx":
 		return &lazy{vals: l.c.SetAndGetRemoved(k, l.val(&a))}
 	case "setnx":
-		l.c.SetIfAbsent(k, &sv{a.V, a.S})
+		l.c.SetIfAbsent(k, mkVal(a.VK, a.V, a.S))
 		return 0
 	case "mut":
 		// the value object stored for k changes what Size() reports; the cache is not told
@@ -165,13 +186,13 @@ func (l *sizedLRU) do(a act) interface{} {
 		if !ok {
 			return hit(false, 0)
 		}
-		return hit(true, v.(*sv).id)
+		return hit(true, idOf(v))
 	case "peek":
 		v, ok := l.c.Peek(k)
 		if !ok {
 			return hit(false, 0)
 		}
-		return hit(true, v.(*sv).id)
+		return hit(true, idOf(v))
 	case "exist":
 		return l.c.Exist(k)
 	case "del":
@@ -180,74 +201,134 @@ func (l *sizedLRU) do(a act) interface{} {
 		l.c.Clear()
 		return 0
 	case "setcap":
-		l.c.SetCapacity(int64(a.C))
+		l.c.SetCapacity(realCap(a.C))
 		return 0
 	case "qlen":
-		return int(l.c.Length())
+		return specNum(l.c.Length())
 	case "qsize":
-		return int(l.c.Size())
+		return specNum(l.c.Size())
 	case "qcap":
-		return int(l.c.Capacity())
+		return specNum(l.c.Capacity())
 	case "qev":
-		return int(l.c.Evictions())
+		return specNum(l.c.Evictions())
 	case "qstats":
 		ln, size, capa, ev := l.c.Stats()
-		return tr.E{"len": int(ln), "size": int(size), "cap": int(capa), "ev": int(ev)}
+		return tr.E{"len": specNum(ln), "size": specNum(size), "cap": specNum(capa), "ev": specNum(ev)}
 	}
 	tr.Fatal("unknown op %q", a.Op)
 	return nil
 }
 
-func (l *sizedLRU) obs() tr.E {
-	items := l.c.Items()
-	keys := l.c.Keys()
-	ln, size, capa, ev := l.c.Stats()
-	vals := make([]int, 0, len(items))
-	ks := make([]int, 0, len(keys))
-	for i, it := range items {
-		vals = append(vals, it.Value.(*sv).id)
-		if i < len(keys) && it.Key != keys[i] {
+// sameKey compares two keys the cache handed out (uncomparable ones - nobody stored such - are unequal)
+func sameKey(a, b interface{}) (eq bool) {
+	defer func() {
+		if recover() != nil {
+			eq = false
+		}
+	}()
+	return a == b
+}
+
+// lazyObs is what Items(), Keys(), Stats() and the single getters returned after a call, kept as
+// returned; like lazy it is put into trace form when the event is written.
+type lazyObs struct {
+	items  []cache.Item
+	titems []tiny.Item
+	keys   []interface{}
+	koff   int
+	st, gt [4]int64 // Stats() / Length, Size, Capacity, Evictions
+}
+
+func (o *lazyObs) render() tr.E {
+	n := len(o.items) + len(o.titems)
+	vals := make([]int, 0, n)
+	ks := make([]int, 0, len(o.keys))
+	for i := 0; i < n; i++ {
+		var k, v interface{}
+		if o.items != nil {
+			k, v = o.items[i].Key, o.items[i].Value
+		} else {
+			k, v = o.titems[i].Key, o.titems[i].Value
+		}
+		vals = append(vals, idOf(v))
+		if i < len(o.keys) && !sameKey(k, o.keys[i]) {
 			// Items and Keys disagree on order: make it visible to the spec
 			vals[len(vals)-1] = -1
 		}
 	}
-	for _, k := range keys {
-		ks = append(ks, unKey(k))
+	for _, k := range o.keys {
+		ks = append(ks, unKey(k, o.koff))
 	}
-	if l.c.Length() != ln || l.c.Size() != size || l.c.Capacity() != capa || l.c.Evictions() != ev {
+	ln := o.st[0]
+	if o.st != o.gt {
 		ln = -1 // Stats and the single getters disagree: visible to the spec
 	}
-	return tr.E{"keys": ks, "vals": vals, "len": int(ln), "size": int(size), "cap": int(capa), "ev": int(ev)}
+	// the lists are the caller's: written over once read (a later Items()/Keys() must not show it)
+	for i := range o.items {
+		o.items[i] = cache.Item{Key: "junk", Value: junkVal}
+	}
+	for i := range o.titems {
+		o.titems[i] = tiny.Item{Key: "junk", Value: "junk"}
+	}
+	for i := range o.keys {
+		o.keys[i] = "junk"
+	}
+	_ = append(o.items[:0], cache.Item{Key: -1, Value: junkVal})
+	_ = append(o.titems[:0], tiny.Item{Key: -1, Value: -1})
+	_ = append(o.keys[:0], "junk", "junk")
+	return tr.E{"keys": ks, "vals": vals, "len": specNum(ln), "size": specNum(o.st[1]), "cap": specNum(o.st[2]), "ev": specNum(o.st[3])}
+}
+
+func (l *sizedLRU) obs() *lazyObs {
+	o := &lazyObs{items: l.c.Items(), keys: l.c.Keys(), koff: l.koff}
+	if o.items == nil {
+		o.items = []cache.Item{}
+	}
+	o.st[0], o.st[1], o.st[2], o.st[3] = l.c.Stats()
+	o.gt = [4]int64{l.c.Length(), l.c.Size(), l.c.Capacity(), l.c.Evictions()}
+	return o
 }
 
 type tinyLRU struct {
 	c    *tiny.LRUCache
 	kind int
+	koff int
+}
+
+// tinyVal: the tiny cache takes any value at all - a plain int, nil, or one of the kinds of kinds.go
+func tinyVal(a act) interface{} {
+	switch a.VK {
+	case vkPtr:
+		return a.V
+	case vkNil:
+		return nil
+	}
+	return mkVal(a.VK, a.V, a.S)
 }
 
 func (l *tinyLRU) do(a act) interface{} {
-	k := mkKey(l.kind, a.K)
+	k := mkKey(l.kind, a.K, l.koff)
 	switch a.Op {
 	case "set":
-		l.c.Set(k, a.V)
+		l.c.Set(k, tinyVal(a))
 		return 0
 	case "setx":
-		return &lazy{anys: l.c.SetAndGetRemoved(k, a.V)}
+		return &lazy{anys: l.c.SetAndGetRemoved(k, tinyVal(a))}
 	case "setnx":
-		l.c.SetIfAbsent(k, a.V)
+		l.c.SetIfAbsent(k, tinyVal(a))
 		return 0
 	case "get":
 		v, ok := l.c.Get(k)
 		if !ok {
 			return hit(false, 0)
 		}
-		return hit(true, v.(int))
+		return hit(true, idOf(v))
 	case "peek":
 		v, ok := l.c.Peek(k)
 		if !ok {
 			return hit(false, 0)
 		}
-		return hit(true, v.(int))
+		return hit(true, idOf(v))
 	case "exist":
 		return l.c.Exist(k)
 	case "del":
@@ -256,48 +337,37 @@ func (l *tinyLRU) do(a act) interface{} {
 		l.c.Clear()
 		return 0
 	case "setcap":
-		l.c.SetCapacity(int64(a.C))
+		l.c.SetCapacity(realCap(a.C))
 		return 0
 	case "mut":
 		return 0
 	case "qlen":
-		return int(l.c.Length())
+		return specNum(l.c.Length())
 	case "qsize":
-		return int(l.c.Size())
+		return specNum(l.c.Size())
 	case "qcap":
-		return int(l.c.Capacity())
+		return specNum(l.c.Capacity())
 	case "qev":
-		return int(l.c.Evictions())
+		return specNum(l.c.Evictions())
 	case "qstats":
 		ln, size, capa, ev := l.c.Stats()
-		return tr.E{"len": int(ln), "size": int(size), "cap": int(capa), "ev": int(ev)}
+		return tr.E{"len": specNum(ln), "size": specNum(size), "cap": specNum(capa), "ev": specNum(ev)}
 	}
 	tr.Fatal("unknown op %q", a.Op)
 	return nil
 }
 
-func (l *tinyLRU) obs() tr.E {
-	items := l.c.Items()
-	keys := l.c.Keys()
-	ln, size, capa, ev := l.c.Stats()
-	vals := make([]int, 0, len(items))
-	ks := make([]int, 0, len(keys))
-	for i, it := range items {
-		vals = append(vals, it.Value.(int))
-		if i < len(keys) && it.Key != keys[i] {
-			vals[len(vals)-1] = -1
-		}
-	}
-	for _, k := range keys {
-		ks = append(ks, unKey(k))
-	}
-	if l.c.Length() != ln || l.c.Size() != size || l.c.Capacity() != capa || l.c.Evictions() != ev {
-		ln = -1
-	}
-	return tr.E{"keys": ks, "vals": vals, "len": int(ln), "size": int(size), "cap": int(capa), "ev": int(ev)}
+func (l *tinyLRU) obs() *lazyObs {
+	o := &lazyObs{titems: l.c.Items(), keys: l.c.Keys(), koff: l.koff}
+	o.st[0], o.st[1], o.st[2], o.st[3] = l.c.Stats()
+	o.gt = [4]int64{l.c.Length(), l.c.Size(), l.c.Capacity(), l.c.Evictions()}
+	return o
 }
 
-func unKey(k interface{}) int {
+func unKey(k interface{}, koff int) int {
+	if n, ok := unMix(k, koff); ok {
+		return n
+	}
 	switch x := k.(type) {
 	case int:
 		return x
@@ -315,11 +385,15 @@ func unKey(k interface{}) int {
 	return -7 // a key nobody stored: an observation the spec cannot explain, not a harness fault
 }
 
+var lruCount int
+
 func newLRU(sized bool, capa, kind int) lru {
+	lruCount++
+	koff := lruCount * 5 // rotates the table of look-alike keys from cache to cache
 	if sized {
-		return &sizedLRU{c: cache.NewLRUCache(int64(capa)), kind: kind, last: map[int]*sv{}}
+		return &sizedLRU{c: cache.NewLRUCache(realCap(capa)), kind: kind, koff: koff, last: map[int]*sv{}}
 	}
-	return &tinyLRU{tiny.NewLRUCache(int64(capa)), kind}
+	return &tinyLRU{tiny.NewLRUCache(realCap(capa)), kind, koff}
 }
 
 // pev turns an event whose reply is a recovered panic into an event of its own kind ("panic"): replies
@@ -345,13 +419,28 @@ func safeDo(l lru, a act) (r interface{}) {
 
 var seqRuns int
 
+// kindsFor gives the values of a plan (which says nothing about kinds) dynamic kinds: mostly one
+// dominant kind - two values of the same uncomparable kind under one key are what a cache that
+// compares values trips over - and now and then another one.
+func kindsFor(acts []act, dom int) {
+	for i := range acts {
+		acts[i].VK = dom % nValKinds
+		if (i*7+dom)%10 >= 6 {
+			acts[i].VK = (i*3 + dom/2) % nValKinds
+		}
+	}
+}
+
 func runSeq(w *tr.W, src string, capa int, sized bool, kind int, acts []act) {
 	l := newLRU(sized, capa, kind)
 	w.Emit(tr.E{"ev": "reset", "cap": capa, "sized": sized, "threads": 1, "src": src, "keykind": kind})
 	seqRuns++
-	late := seqRuns%2 == 0 // the events of every second history are written when the history is over
+	// the events of every second pair of histories are written when the history is over (pairs: the
+	// callers alternate sized / tiny, and both must meet both ways)
+	late := seqRuns%4 >= 2
 	var held []tr.E
 	for _, a := range acts {
+		normVal(&a, sized)
 		if sl, ok := l.(*sizedLRU); ok && a.Same {
 			if p := sl.last[a.K]; p != nil { // sequential history: no lock needed
 				a.V = p.id // the same value object is stored again: its identity is what it was
@@ -390,19 +479,74 @@ func readPlan(path string) []act {
 	return out
 }
 
+// domKind: the dominant value kind of the history being generated (-1: the plain pointer kind only)
+var domKind = -1
+
+func randKind(rng *rand.Rand) int {
+	if domKind < 0 {
+		return vkPtr
+	}
+	if rng.Intn(10) < 6 {
+		return domKind
+	}
+	return rng.Intn(nValKinds)
+}
+
 func randAct(rng *rand.Rand, nkeys, capa int) act {
+	a := randAct0(rng, nkeys, capa)
+	a.VK = randKind(rng)
+	return a
+}
+
+var sizeMarks = []int{0, 1, 255, 256, 257, 65535, 65536, 65537}
+
+func randAct0(rng *rand.Rand, nkeys, capa int) act {
 	k := rng.Intn(nkeys) + 1
 	v := rng.Intn(1000) + 1
 	var s int
+	big := capa >= 255
 	switch rng.Intn(6) {
 	case 0:
 		s = 0
 	case 1:
 		s = capa + 1 + rng.Intn(3) // larger than the whole capacity
+		if capa == hugeCap {
+			s = 1 << 24
+		}
 	case 2:
 		s = capa
+		if capa == hugeCap {
+			s = 1<<24 - 1
+		}
 	default:
 		s = rng.Intn(capa/2+2) + 0
+		if big {
+			// capacities around the widths a counter may have been narrowed to: charges that make
+			// the sum cross them, in few entries
+			switch rng.Intn(4) {
+			case 0:
+				s = sizeMarks[rng.Intn(len(sizeMarks))]
+			case 1:
+				s = capa/2 + rng.Intn(3) - 1
+			case 2:
+				s = capa/3 + rng.Intn(2)
+			default:
+				s = capa - 1 - rng.Intn(300)
+			}
+			if capa == hugeCap && s > 1<<24 {
+				s = 1<<24 - rng.Intn(5)
+			}
+			if s < 0 {
+				s = 0
+			}
+		}
+	}
+	if big && rng.Intn(100) >= 96 { // another capacity of the same family instead of 0..2*capa+1
+		c := bigCaps[rng.Intn(len(bigCaps))]
+		if c == hugeCap && capa != hugeCap { // sums must stay inside TLC's integers: cap + charge < 2^31
+			c = 65536
+		}
+		return act{Op: "setcap", C: c}
 	}
 	switch x := rng.Intn(100); {
 	case x < 4:
@@ -426,6 +570,9 @@ func randAct(rng *rand.Rand, nkeys, capa int) act {
 	case x < 96:
 		return act{Op: []string{"qlen", "qsize", "qcap", "qev", "qstats"}[rng.Intn(5)]}
 	default:
+		if big {
+			return act{Op: "setcap", C: []int{0, 1, capa / 2, capa - 1, capa, 256, 65536}[rng.Intn(7)]}
+		}
 		return act{Op: "setcap", C: rng.Intn(2*capa + 2)}
 	}
 }
@@ -453,6 +600,7 @@ func runConc(w *tr.W, rng *rand.Rand, sized bool, threads, opsPer int) {
 			if a.S > capa+1 {
 				a.S = capa + 1
 			}
+			normVal(&a, sized)
 			progs[t] = append(progs[t], a)
 		}
 	}
@@ -476,7 +624,7 @@ func runConc(w *tr.W, rng *rand.Rand, sized bool, threads, opsPer int) {
 	for _, e := range evs {
 		w.Emit(fin(e))
 	}
-	w.Emit(tr.E{"ev": "final", "obs": l.obs()})
+	w.Emit(fin(tr.E{"ev": "final", "obs": l.obs()}))
 }
 
 // race rounds: a fresh cache, `threads` goroutines released together, each issuing a short burst
@@ -568,7 +716,26 @@ func runRaces(w *tr.W, rng *rand.Rand, rounds, keep, bulk int) (int, int) {
 				}
 			}
 		}
-		l := newLRU(sized, capa, 0)
+		// dynamic kinds of keys and values rotate over the rounds
+		vk, kk := vkPtr, r%nKeyKinds
+		if r%5 >= 2 {
+			vk = (r / 5) % nValKinds
+		}
+		if r%3 == 2 && (vk == vkTypedNil || vk == vkNil) {
+			vk = vkSlice // these kinds fix the charge, the bulk rounds need theirs
+		}
+		apply := func(xs []act) {
+			for i := range xs {
+				xs[i].VK = vk
+				normVal(&xs[i], sized)
+			}
+		}
+		apply(pre)
+		apply(post)
+		for t := range progs {
+			apply(progs[t])
+		}
+		l := newLRU(sized, capa, kk)
 		var preEvs []tr.E
 		for _, a := range pre {
 			preEvs = append(preEvs, fin(pev(tr.E{"ev": "callr", "a": a.rec(), "r": safeDo(l, a)})))
@@ -630,19 +797,19 @@ func runRaces(w *tr.W, rng *rand.Rand, rounds, keep, bulk int) (int, int) {
 		if r%3 == 2 {
 			bulkKept++
 		}
-		w.Emit(tr.E{"ev": "reset", "cap": capa, "sized": sized, "threads": threads, "src": "race", "keykind": 0})
+		w.Emit(tr.E{"ev": "reset", "cap": capa, "sized": sized, "threads": threads, "src": "race", "keykind": kk})
 		for _, e := range preEvs {
 			w.Emit(e)
 		}
 		for _, e := range evs {
 			w.Emit(fin(e))
 		}
-		w.Emit(tr.E{"ev": "final", "obs": l.obs()})
+		w.Emit(fin(tr.E{"ev": "final", "obs": l.obs()}))
 		for _, a := range post {
 			w.Emit(fin(pev(tr.E{"ev": "callr", "a": a.rec(), "r": safeDo(l, a)})))
 		}
 		if len(post) > 0 {
-			w.Emit(tr.E{"ev": "final", "obs": l.obs()})
+			w.Emit(fin(tr.E{"ev": "final", "obs": l.obs()}))
 		}
 	}
 	return ran, kept
@@ -656,7 +823,7 @@ func runWide(w *tr.W, rng *rand.Rand, variant string, shards, capa, nops int) {
 	var tinyF tiny.LRU
 	var opts []remap.Option
 	if shards > 0 { // 0 = no option: the constructors' default shard count
-		opts = append(opts, opts...)
+		opts = append(opts, remap.WithPrime(uint64(shards)))
 	}
 	rm := remap.NewReMap(opts...)
 	var idx func(interface{}) int
@@ -692,6 +859,7 @@ func runWide(w *tr.W, rng *rand.Rand, variant string, shards, capa, nops int) {
 		if !sized {
 			a.S = 1
 		}
+		normVal(&a, sized)
 		var key interface{} = a.K
 		if variant == "widex" || variant == "tinywidex" {
 			if a.K%2 == 0 {
@@ -866,20 +1034,20 @@ func wideDo(sf cache.LRUFacade, tf tiny.LRU, key interface{}, a act) interface{}
 	if sf != nil {
 		switch a.Op {
 		case "set":
-			sf.Set(key, &sv{a.V, a.S})
+			sf.Set(key, mkVal(a.VK, a.V, a.S))
 			return 0
 		case "get":
 			v, ok := sf.Get(key)
 			if !ok {
 				return hit(false, 0)
 			}
-			return hit(true, v.(*sv).id)
+			return hit(true, idOf(v))
 		case "peek":
 			v, ok := sf.Peek(key)
 			if !ok {
 				return hit(false, 0)
 			}
-			return hit(true, v.(*sv).id)
+			return hit(true, idOf(v))
 		case "exist":
 			return sf.Exist(key)
 		case "del":
@@ -888,20 +1056,20 @@ func wideDo(sf cache.LRUFacade, tf tiny.LRU, key interface{}, a act) interface{}
 	} else {
 		switch a.Op {
 		case "set":
-			tf.Set(key, a.V)
+			tf.Set(key, tinyVal(a))
 			return 0
 		case "get":
 			v, ok := tf.Get(key)
 			if !ok {
 				return hit(false, 0)
 			}
-			return hit(true, v.(int))
+			return hit(true, idOf(v))
 		case "peek":
 			v, ok := tf.Peek(key)
 			if !ok {
 				return hit(false, 0)
 			}
-			return hit(true, v.(int))
+			return hit(true, idOf(v))
 		case "exist":
 			return tf.Exist(key)
 		case "del":
@@ -926,6 +1094,11 @@ func main() {
 	nracekeep := flag.Int("nracekeep", 4000, "race rounds (with real overlap) to keep")
 	nwrace := flag.Int("nwrace", -1, "wide race rounds to run (-1: nrace/4)")
 	nwracekeep := flag.Int("nwracekeep", -1, "wide race rounds to keep (-1: nracekeep/3)")
+	long := flag.String("long", "", "long-run traces (run-length encoded; empty: none)")
+	longchurn := flag.Int("longchurn", 65540, "calls of the long eviction run (0: none)")
+	longtouch := flag.Int("longtouch", 700, "calls of the long recency run (0: none)")
+	nreconf := flag.Int("nreconf", -1, "reconfiguration histories (-1: hist/5)")
+	nshape := flag.Int("nshape", -1, "shape-class histories (-1: all of them if hist > 0)")
 	flag.Parse()
 	rng := rand.New(rand.NewSource(*seed))
 
@@ -938,7 +1111,11 @@ func main() {
 			if len(p) == 0 || p[0].Op != "init" {
 				tr.Fatal("plan %s does not start with init", f)
 			}
-			runSeq(w, "plan:"+filepath.Base(f), p[0].Cap, p[0].Sized, i%5, p[1:])
+			acts := p[1:]
+			if i%2 == 1 {
+				kindsFor(acts, i/2)
+			}
+			runSeq(w, "plan:"+filepath.Base(f), p[0].Cap, p[0].Sized, i%nKeyKinds, acts)
 		}
 	}
 	for i := 0; i < *nhist; i++ {
@@ -947,24 +1124,58 @@ func main() {
 			capa = 0
 		}
 		nkeys := rng.Intn(12) + 2
+		if i%8 == 5 { // capacities around counter widths, "no limit", charges in proportion
+			capa = bigCaps[rng.Intn(len(bigCaps))]
+			nkeys = rng.Intn(5) + 2
+		}
 		n := rng.Intn(*maxops) + 5
 		acts := make([]act, n)
+		domKind = -1
+		if i%3 != 0 {
+			domKind = rng.Intn(nValKinds)
+		}
 		for j := range acts {
 			acts[j] = randAct(rng, nkeys, capa)
 		}
-		runSeq(w, "rand", capa, i%2 == 0, rng.Intn(5), acts)
+		runSeq(w, "rand", capa, i%2 == 0, rng.Intn(nKeyKinds), acts)
 	}
+	if *nreconf < 0 {
+		*nreconf = *nhist / 5
+	}
+	for i := 0; i < *nreconf; i++ {
+		domKind = rng.Intn(nValKinds+3) - 3
+		capa, acts := reconfHist(rng)
+		runSeq(w, "reconf", capa, i%2 == 0, rng.Intn(nKeyKinds), acts)
+	}
+	if *nshape != 0 && *nhist > 0 {
+		domKind = rng.Intn(nValKinds)
+		sh := shapeHists(rng)
+		rng.Shuffle(len(sh), func(i, j int) { sh[i], sh[j] = sh[j], sh[i] })
+		if *nshape > 0 && len(sh) > *nshape {
+			sh = sh[:*nshape]
+		}
+		for i, h := range sh {
+			runSeq(w, "shape", h.capa, (i+int(*seed))%2 == 0, rng.Intn(nKeyKinds), h.acts)
+		}
+	}
+	domKind = -1
 	for i := 0; i < *nwide; i++ {
+		domKind = rng.Intn(nValKinds+2) - 2
 		variants := []string{"wide", "widex", "tinywide", "tinywidex"}
 		shards := []int{1, 2, 3, 7, 13, 0, 73}[rng.Intn(7)]
 		runWide(w, rng, variants[i%4], shards, rng.Intn(20), rng.Intn(*maxops*2)+20)
 	}
 	w.Close()
 
+	domKind = -1
 	cw := tr.Create(*conc)
 	for i := 0; i < *nconc; i++ {
+		if i%2 == 1 {
+			domKind = (i / 2) % nValKinds
+		}
 		runConc(cw, rng, i%2 == 0, 3, 4+i%3)
 	}
+	domKind = -1
 	ran, kept := runRaces(cw, rng, *nrace, *nracekeep, *nbulk)
 	if *nwrace < 0 {
 		*nwrace = *nrace / 4
@@ -974,6 +1185,24 @@ func main() {
 	}
 	wran, wkept := runWideRaces(cw, rng, *nwrace, *nwracekeep)
 	cw.Close()
+	if *long != "" {
+		// long runs around integer widths: 8-bit marks for Length/Size/evictions/recency in every run,
+		// 16-bit marks for evictions and recency (Length beyond 2^16 is too large a state for TLC)
+		lw := tr.Create(*long)
+		sized := *seed%2 == 0
+		longFill(lw, rng, sized, 300)
+		longFill(lw, rng, !sized, 258)
+		longChurn(lw, rng, !sized, 600)
+		longTouch(lw, rng, sized, 300+rng.Intn(300))
+		if *longchurn > 0 {
+			longChurn(lw, rng, sized, *longchurn)
+		}
+		if *longtouch > 0 {
+			longTouch(lw, rng, !sized, *longtouch+rng.Intn(7))
+		}
+		lw.Close()
+		fmt.Printf("long_events=%d\n", lw.N())
+	}
 	fmt.Printf("wide_race_rounds=%d wide_race_rounds_with_overlap=%d\n", wran, wkept)
 	fmt.Printf("seq_events=%d conc_events=%d race_rounds=%d race_rounds_with_overlap=%d\n", w.N(), cw.N(), ran, kept)
 }
